@@ -803,19 +803,6 @@ Theorem vec_inv_reachable : forall ops, SInv (run ops init).
 Proof. intros ops. apply run_inv. apply init_inv. Qed.
 
 (* ================================================================ flatten = row-major concatenation *)
-(* column k / all rows of the cell found at an address (nothing for an unset cell) *)
-Definition cell_col (k : nat) (h : list cell) (x : option leaf) : list Q :=
-  match x with
-  | Some (Some id) => match nth_error h id with Some c => col k c | None => [] end
-  | _ => []
-  end.
-
-Definition cell_rows (h : list cell) (x : option leaf) : list (list Q) :=
-  match x with
-  | Some (Some id) => match nth_error h id with Some c => rows c | None => [] end
-  | _ => []
-  end.
-
 Lemma flat_field_rowmajor k h sh t :
   shaped sh t -> flat_field k h (leaves t) = flat_map (cell_col k h) (map (tget t) (ndindex sh)).
 Proof.
